@@ -2,7 +2,7 @@ from .common import pyvc_units
 
 LEVEL = "other"
 MODULES = ["vf.contracts.c_components", "vf.contracts.c_circuit_modes", "vf.contracts.c_compiler"]
-EXPLANATION = ("Clause table. PROVED for every mode count, every mode pair/order and every real parameter value in range (pyvc: VCs from the real AST, z3): BeamSplitter.get_unitary (both conventions, reversed mode order included), PhaseShifter.get_unitary, Loss.get_unitary, Barrier.get_unitary, permutation_mat_from_swaps_dict (ModeSwaps) return exactly the documented matrix entry by entry, and the non-trivial 2x2 block of BS / PS / Loss is unitary (hence the embedded matrix, lemma M3); a reflectivity outside [0,1] - plain or held by a Parameter - raises ValueError (BeamSplitter validation contract); Circuit.bs / ps / loss record the component on the remapped modes (loss on the same modes), raise ModeRangeError / TypeError / ValueError exactly under the stated conditions and leave the circuit untouched when they raise; Circuit._mode_in_range and check_loss raise iff (all argument type variants); Circuit._map_mode returns the mode-th user-visible mode. BOUNDED, exact, every real parameter symbolic (xlift, labelled bounded): the whole path Circuit API -> spec -> CompiledCircuit -> U / U_full against the ordered product of the documented matrices for every program of <=2 components (quick; thorough adds 4500 programs of 3-4 components on <=4 modes) over all ordered mode pairs, both conventions, all permutations, unitary blocks, loss, barriers and an optional heralded sub-circuit (ancilla) in front: U = product, U_full has one extra mode per loss element, U is its leading block, U_full^dagger U_full = I. NOT under contract: CompiledCircuit.add / Circuit._build_process (ordered left-multiplication and loss-mode padding are covered by the bounded programs only); UnitaryMatrix.get_unitary. OUT OF REACH: 'to machine precision' (A1).")
+EXPLANATION = ("Clause table. PROVED for every mode count, every mode pair/order and every real parameter value in range (pyvc: VCs from the real AST, z3): BeamSplitter.get_unitary (both conventions, reversed mode order included), PhaseShifter.get_unitary, Loss.get_unitary, Barrier.get_unitary, permutation_mat_from_swaps_dict (ModeSwaps) return exactly the documented matrix entry by entry, and the non-trivial 2x2 block of BS / PS / Loss is unitary (hence the embedded matrix, lemma M3); a reflectivity outside [0,1] - plain or held by a Parameter - raises ValueError (BeamSplitter validation contract); Circuit.bs / ps / loss record the component on the remapped modes (loss on the same modes), raise ModeRangeError / TypeError / ValueError exactly under the stated conditions and leave the circuit untouched when they raise; Circuit._mode_in_range and check_loss raise iff (all argument type variants); Circuit._map_mode returns the mode-th user-visible mode. BOUNDED, exact, every real parameter symbolic (xlift, labelled bounded): the whole path Circuit API -> spec -> CompiledCircuit -> U / U_full against the ordered product of the documented matrices for every program of <=2 components (quick; thorough adds 4500 programs of 3-4 components on <=4 modes) over all ordered mode pairs, both conventions, all permutations, unitary blocks, loss, barriers and an optional heralded sub-circuit (ancilla) in front: U = product, U_full has one extra mode per loss element, U is its leading block, U_full^dagger U_full = I. CompiledCircuit.add over the abstract matrix algebra (opaque matrices, uninterpreted non-commutative product): for BeamSplitter / PhaseShifter / ModeSwaps the new matrix is mul(E(get_unitary, n+l), U0) - LEFT multiplication at the current size; for Loss it is mul(E(get_unitary, n+l+1), pad1(U0)) - pad first, corner one, multiply at the new size, loss count + 1; Barrier leaves it unchanged; a Group is the fold over its members in order (three concrete group shapes incl. losses inside); dimensions always agree and the invariant dim = n + l is kept. NOT under contract: Circuit._build_process (a plain loop over the spec calling add; covered by the bounded programs), UnitaryMatrix.get_unitary. OUT OF REACH: 'to machine precision' (A1).")
 ASSUMPTIONS = ["A1: floats are exact reals", "trig/sqrt atoms with their defining identities"]
 TRUSTED = ["z3 5.1 / cvc5", "pyvc encoding of the Python subset", "xlift field + numpy proxy",
            "lemma M3 (a matrix equal to the identity outside a unitary 2x2 block is unitary), M1 (products of unitaries are unitary): mathematics, not code"]
